@@ -128,6 +128,9 @@ def gen_doc(rng, dup=False, max_paras=3):
                 names.insert(rng.randint(0, len(names)), respell(names[0]))
         for nm in names:
             out += gen_field(rng, nm)
+    if rng.random() < 0.12 and out.endswith("\n"):
+        # a free comment after the last paragraph, possibly as the unterminated last line of the file
+        return out + ("" if out.endswith("\n\n") else "\n") + "# trailing free comment" + rng.choice(["\n", ""])
     if rng.random() < 0.35 and out.endswith("\n") and not out.endswith("\n\n"):
         out = out[:-1]          # no final newline
         if out.endswith(" ") and rng.random() < 0.5:
